@@ -26,7 +26,7 @@ Definition canon (c : cat) : cat :=
      pols := sort_by (fun a b => lex3 (rp_db a) (rp_name a) 0 (rp_db b) (rp_name b) 0) (map canon_pol (pols c));
      nodes := sort_by (fun a b => nd_id a <=? nd_id b) (nodes c);
      ptview := sort_by (fun a b => fst a <=? fst b) (ptview c);
-     ptnum := ptnum c; ptper := ptper c; sclean := sclean c;
+     ptnum := ptnum c; ptper := ptper c; sclean := sclean c; clampst := clampst c;
      max_node := max_node c; max_sg := max_sg c; max_sh := max_sh c; max_mst := max_mst c; max_ig := max_ig c;
      max_ix := max_ix c; max_conn := max_conn c |}.
 
@@ -81,15 +81,16 @@ Fixpoint wf_fail_from (i : nat) (tr : list step_obs) : list nat :=
   | (_, _, d) :: rest => if wf_b d then wf_fail_from (S i) rest else i :: wf_fail_from (S i) rest
   end.
 
-Record verdict := { v_cur : Z; v_clip : Z; v_clear : Z; v_rep : Z; v_wf : list nat }.
+(* per variant (clip, cleardef, clamp), in the order of [variants]: first disagreeing step or -1; -2 when the case is not modelled *)
+Definition variants : list (bool * bool * bool) :=
+  [(false, false, false); (true, false, false); (false, true, false); (true, true, false);
+   (false, false, true); (true, false, true); (false, true, true); (true, true, true)].
+Record verdict := { v_match : list Z; v_wf : list nat }.
 
 Definition check_case (per : Z) (sc : bool) (modelled : bool) (tr : list step_obs) : verdict :=
-  let c0 := init_cat per sc in
-  if modelled then
-    {| v_cur := opt_nat_z (check_from false false 0 c0 tr); v_clip := opt_nat_z (check_from true false 0 c0 tr);
-       v_clear := opt_nat_z (check_from false true 0 c0 tr); v_rep := opt_nat_z (check_from true true 0 c0 tr);
-       v_wf := wf_fail_from 0 tr |}
-  else {| v_cur := -2; v_clip := -2; v_clear := -2; v_rep := -2; v_wf := wf_fail_from 0 tr |}.
+  {| v_match := map (fun v => match v with (clip, cleardef, clamp) =>
+                        if modelled then opt_nat_z (check_from clip cleardef 0 (init_cat_v per sc clamp) tr) else -2 end) variants;
+     v_wf := wf_fail_from 0 tr |}.
 
 Definition check_cases (l : list (Z * bool * bool * list step_obs)) : list verdict :=
   map (fun x => match x with (per, sc, m, tr) => check_case per sc m tr end) l.
